@@ -457,6 +457,7 @@ def c14(res: CheckResult) -> None:
         "metadata preservation is decided over an explicit attribute list (name, qualname, doc, module, annotations, "
         "signature, abstractness, coroutine-ness, __wrapped__)"]
     T.check_ctor(res, ic)
+    T.check_meta(res, ic)
     def_unit(res, "decorator stacks with foreign wrappers: one checker, no decorator lost, original reachable",
              list(DF.fam_stacks(res.tier, rng)), ic, rng=rng)
     def_unit(res, "overrides carrying foreign functools.wraps decorators in hierarchies",
